@@ -281,6 +281,25 @@ func (rn *c03Runner) check(name string, sp c03Spec, arg uint32, p byte, deep boo
 			return "unexplained:dry-run-length:" + name, fmt.Sprintf("%s: an emitter without a target buffer advanced PC by %d, the instruction is %d bytes long", desc(), de.PC()-dpc, ilen)
 		}
 	}
+	// a clone WITH a buffer of its own, made from a parent WITHOUT one (the sizing pass builds a block in a
+	// scratch buffer): the instruction is emitted into the clone's buffer like into any other
+	{
+		parent := asm.NewEmitter(nil, rn.listing)
+		parent.SetBase(0x008000)
+		parent.AssumeSEP(asm.Flags(p & 0x30))
+		buf := make([]byte, 8)
+		cl := parent.Clone(buf)
+		b, err := c03Bind(cl, name)
+		if err != nil {
+			return "oracle-broken", err.Error()
+		}
+		if _, cpn, _ := c03Call(b, name, arg); cpn != nil {
+			return "unexplained:clone-of-dry-run-refuses:" + name, fmt.Sprintf("%s on a clone (own 8-byte buffer) of an emitter without a target: refused: %v", desc(), cpn)
+		}
+		if cl.Len() != ilen || cl.PC() != 0x008000+uint32(ilen) || !bytes.Equal(cl.Bytes(), got) || !bytes.Equal(buf[:ilen], got) {
+			return "unexplained:clone-of-dry-run:" + name, fmt.Sprintf("%s on a clone (own 8-byte buffer) of an emitter without a target: Len=%d PC=$%06x Bytes=% x buffer % x, want % x", desc(), cl.Len(), cl.PC(), cl.Bytes(), buf, got)
+		}
+	}
 	// a VALUE COPY of a fresh emitter (the struct is exported and copyable; a caller may embed it): the
 	// instruction must be emitted into the copy, whose Len/PC/Bytes account for it
 	{
